@@ -27,8 +27,8 @@ package hpack
 //@
 //@ func readVarInt(n, p) (i, remain, err)
 //@   requires 1 <= n && n <= 8
-//@   ensures  err == nil ==> samebase(remain, p) && 1 <= suboff(remain, p) && suboff(remain, p) + len(remain) == len(p)
-//@   ensures  err != nil ==> samebase(remain, p) && suboff(remain, p) == 0 && len(remain) == len(p)
+//@   ensures  err == nil ==> samebase(remain, p) && startoff(remain) > startoff(p) && endoff(remain) == endoff(p)
+//@   ensures  err != nil ==> samebase(remain, p) && startoff(remain) == startoff(p) && len(remain) == len(p)
 //@   ensures  err != nil ==> (err == errNeedMore || err == errVarintOverflow) && i == 0
 //@   ensures  len(p) == 0 ==> err == errNeedMore
 //@   loop 1 unroll 10
@@ -99,33 +99,33 @@ func lemmaHpackIntTruncated(n byte, i uint64, cut int) (ok bool) {
 //@
 //@ func (*Decoder).readString(d, p) (u, remain, err)
 //@   requires d != nil && d.maxStrLen >= 0
-//@   ensures  err == nil ==> samebase(u.b, p) && samebase(remain, p) && 1 <= suboff(u.b, p)
-//@   ensures  err == nil ==> suboff(remain, p) == suboff(u.b, p) + len(u.b) && suboff(remain, p) + len(remain) == len(p)
+//@   ensures  err == nil ==> samebase(u.b, p) && samebase(remain, p) && startoff(u.b) > startoff(p)
+//@   ensures  err == nil ==> startoff(remain) == endoff(u.b) && endoff(remain) == endoff(p)
 //@   ensures  err == nil && d.maxStrLen != 0 ==> len(u.b) <= d.maxStrLen
 //@   ensures  err != nil ==> err == errNeedMore || err == errVarintOverflow || err == ErrStringLength
 //@
 //@ func (*Decoder).parseFieldIndexed(d) (err)
 //@   requires d != nil && len(d.buf) >= 1 && len(d.dynTab.table.ents) <= 1<<32 && staticTable != nil && len(staticTable.ents) <= 1<<16
 //@   ensures  err == errNeedMore ==> unchanged(d.buf)
-//@   ensures  err == nil ==> samebase(d.buf, old(d.buf)) && 1 <= suboff(d.buf, old(d.buf)) && suboff(d.buf, old(d.buf)) + len(d.buf) == len(old(d.buf))
+//@   ensures  err == nil ==> samebase(d.buf, old(d.buf)) && startoff(d.buf) > startoff(old(d.buf)) && endoff(d.buf) == endoff(old(d.buf))
 //@   noframe
 //@
 //@ func (*Decoder).parseFieldLiteral(d, n, it) (err)
 //@   requires d != nil && d.maxStrLen >= 0 && len(d.buf) >= 1 && 1 <= n && n <= 8 && len(d.dynTab.table.ents) <= 1<<32 && staticTable != nil && len(staticTable.ents) <= 1<<16
 //@   ensures  err == errNeedMore ==> unchanged(d.buf) && unchanged(d.dynTab.size) && unchanged(d.dynTab.maxSize)
-//@   ensures  err == nil ==> samebase(d.buf, old(d.buf)) && 1 <= suboff(d.buf, old(d.buf)) && suboff(d.buf, old(d.buf)) + len(d.buf) == len(old(d.buf))
+//@   ensures  err == nil ==> samebase(d.buf, old(d.buf)) && startoff(d.buf) > startoff(old(d.buf)) && endoff(d.buf) == endoff(old(d.buf))
 //@   assert at call add: it == indexedTrue
 //@   noframe
 //@
 //@ func (*Decoder).parseDynamicTableSizeUpdate(d) (err)
 //@   requires d != nil && len(d.buf) >= 1
 //@   ensures  err == errNeedMore ==> unchanged(d.buf) && unchanged(d.dynTab.size) && unchanged(d.dynTab.maxSize)
-//@   ensures  err == nil ==> samebase(d.buf, old(d.buf)) && 1 <= suboff(d.buf, old(d.buf)) && suboff(d.buf, old(d.buf)) + len(d.buf) == len(old(d.buf))
+//@   ensures  err == nil ==> samebase(d.buf, old(d.buf)) && startoff(d.buf) > startoff(old(d.buf)) && endoff(d.buf) == endoff(old(d.buf))
 //@   assert at call setMaxSize: uint64($v) <= uint64(d.dynTab.allowedMaxSize)
 //@   noframe
 //@
 //@ func (*Decoder).parseHeaderFieldRepr(d) (err)
 //@   requires d != nil && d.maxStrLen >= 0 && len(d.buf) >= 1 && len(d.dynTab.table.ents) <= 1<<32 && staticTable != nil && len(staticTable.ents) <= 1<<16
 //@   ensures  err == errNeedMore ==> unchanged(d.buf) && unchanged(d.dynTab.size) && unchanged(d.dynTab.maxSize)
-//@   ensures  err == nil ==> samebase(d.buf, old(d.buf)) && 1 <= suboff(d.buf, old(d.buf)) && suboff(d.buf, old(d.buf)) + len(d.buf) == len(old(d.buf))
+//@   ensures  err == nil ==> samebase(d.buf, old(d.buf)) && startoff(d.buf) > startoff(old(d.buf)) && endoff(d.buf) == endoff(old(d.buf))
 //@   noframe
